@@ -1,0 +1,32 @@
+//go:build verif
+
+// Contracts for package ptrify, checked by /verif/govc (see /verif/DESIGN.md).  Comment-only file.
+
+package ptrify
+
+// The omission rule shared by Pointerify and the overlay walk (C01: skipped fields never shift a value).
+//@ def omitField(name Str, tag Str) bool = !isExported(name) || (tagHasKey(tag, "dials") && tagLookup(tag, "dials") == "-")
+//@ def keeps(t RType, i int) bool = !omitField(fName(t, i), fTag(t, i)) && kind(fType(t, i)) != Chan && kind(fType(t, i)) != Func
+//@ rec retained(t RType, n int) int = ite(n <= 0, 0, retained(t, n - 1) + b2i(keeps(t, n - 1)))
+//@ lemma retained_bounds(t RType, n int)
+//@   props C01
+//@   induct n
+//@   requires n >= 0
+//@   ensures 0 <= retained(t, n) && retained(t, n) <= n
+
+//@ func ptrify.OmitField(sf) (r)
+//@   props C01
+//@   safety C16
+//@   ensures C01_omit_rule: r <==> omitField(sf.Name, sf.Tag)
+
+//@ lemma retained_mono(t RType, a int, n int)
+//@   props C01
+//@   induct n
+//@   requires 0 <= a && a <= n
+//@   ensures retained(t, a) <= retained(t, n)
+
+//@ lemma retained_strict(t RType, a int, n int)
+//@   props C01
+//@   induct n
+//@   requires 0 <= a && a < n && keeps(t, a)
+//@   ensures retained(t, a) < retained(t, n)
